@@ -337,7 +337,8 @@ fn handle_established(
         if s.flags.ack {
             let acked = s.ack.wrapping_sub(tcb.snd_una);
             let in_flight = tcb.snd_nxt.wrapping_sub(tcb.snd_una);
-            if acked > 0 && acked <= in_flight {
+            let advanced = acked > 0 && acked <= in_flight;
+            if advanced {
                 // FIN (if sent) sits at `fin_seq` and consumes one seq
                 // past the data. Don't try to drain buffer bytes for
                 // the FIN's byte.
@@ -368,7 +369,13 @@ fn handle_established(
             // than what we already processed: an ACK that was overtaken
             // on the wire (its ack lies behind snd_una) describes a
             // window the peer has since closed.
-            if (s.ack.wrapping_sub(tcb.snd_una) as i32) >= 0 {
+            //
+            // Two ACKs with the same ack number can swap places too. The
+            // peer never moves the right edge of its window to the left
+            // (`ack + window` only grows as the reader drains), so of two
+            // segments with the same ack the larger window is the newer.
+            let rel = s.ack.wrapping_sub(tcb.snd_una) as i32;
+            if rel > 0 || (rel == 0 && (advanced || s.window > tcb.snd_wnd)) {
                 tcb.snd_wnd = s.window;
             }
             wake_write = true;
